@@ -764,6 +764,11 @@ theorem chunkLinesOld_unsound :
     chunkLinesOld 2 ([] : List (List Nat)) = none ∧
     chunkLines 2 ([] : List (List Nat)) = some [] := by decide
 
+/-- the shipped `StreamNode.compute` lost the first chunk; the repaired one (`get_iter`) does not -/
+theorem streamComputeOld_unsound :
+    streamComputeOld [[1, 2], [3], [4, 5]] = some [3, 4, 5] ∧ streamComputeOld [[1, 2]] = none ∧
+    (computeGraph [.stream [[1, 2], [3], [4, 5]]] 0 5).toOption.map (·.1) = some [1, 2, 3, 4, 5] := by decide
+
 /-! ## non-vacuity of the hypotheses -/
 example : IsChunking [1, 2, 3] [[1], [2, 3]] := ⟨rfl, by intro c hc; simp at hc; rcases hc with rfl | rfl <;> simp⟩
 example : Contig [1, 1, 2, 5, 5] := sorted_contig _ (by decide)
